@@ -610,6 +610,8 @@ def main(tier):
     except EOFError:
         chk.machinery('trace part: process died')
     tproc.join()
+    # every tree <= 5-6 nodes over {element, iframe, uniquely lettered text}: text after a skipped iframe at any depth
+    rpl.run_cfg(chk, 'MC_C19_tail', {'MaxNodes': 5 if tier == 'quick' else 6}, 'tail%d' % (5 if tier == 'quick' else 6))
     return chk.finish()
 
 
